@@ -4,12 +4,12 @@ import (
 	"sort"
 	"time"
 
-	"verif/internal/fw"
-	"verif/internal/wr"
 	"encoding/json"
 	"fmt"
 	"os"
 	"testing"
+	"verif/internal/fw"
+	"verif/internal/wr"
 
 	bo "github.com/benoitkugler/webrender/html/boxes"
 )
